@@ -784,12 +784,13 @@ class ProcessingPipeline:
         self.set_pipeline()
 
     def set_pipeline(self) -> None:
-        for processing_item in self.items:
-            processing_item.set_pipeline(self)
-        for postprocessing_item in self.postprocessing_items:
-            postprocessing_item.set_pipeline(self)
-        for finalizer in self.finalizers:
-            finalizer.set_pipeline(self)
+        # The same item object may be contained more than once (e.g. a pipeline added to itself or
+        # named twice in a resolver list): it gets this pipeline as context once.
+        seen: set[int] = set()
+        for item in (*self.items, *self.postprocessing_items, *self.finalizers):
+            if id(item) not in seen:
+                seen.add(id(item))
+                item.set_pipeline(self)
 
     def _clear_pipeline(self) -> None:
         for processing_item in self.items:
